@@ -103,7 +103,7 @@ inline void add_simple_ops(std::vector<LsmOp>& ops) {
       auto body = [dv, lb, m](bool expl) {
         GBuf r(16 * m, 8), x(16 * m, 24); prefill(r.p, r.bytes, 1);
         // |x/d| up to just below 2^min(log2bound, 52), never an exact tie
-        for (size_t i = 0; i < 2 * m; ++i) { int top = (int)std::min<uint32_t>(lb, 52); double y = ldexp((double)(probe62(i + m) >> 10), top - 52); y = floor(y) + (fabs(y) < 0x1p49 ? 0.25 : 0.0); x.as<double>()[i] = y * dv; }
+        for (size_t i = 0; i < 2 * m; ++i) { int top = (int)std::min<uint32_t>(lb, 52); double y = ldexp((double)(probe62(i + m) >> 9), top - 52); /* 61-bit probes: |y| reaches the upper half of [2^(top-1), 2^top), beyond the range of the narrower kernel */ y = floor(y) + (fabs(y) < 0x1p49 ? 0.25 : 0.0); x.as<double>()[i] = y * dv; }
         if (!expl) reim_to_znx64_simple(m, dv, lb, r.as<int64_t>(), x.p); else { auto* p = new_reim_to_znx64_precomp(m, dv, lb); reim_to_znx64(p, r.as<int64_t>(), x.p); free(p); }
         return hash_buf(r); };
       o.run = [body] { return body(false); }; o.explicit_run = [body] { return body(true); };
